@@ -1241,7 +1241,7 @@ pub fn run(ctx: &Ctx) {
     // grown several times): every key entered once, then a random second pass, one flush, a few more, a last flush
     // (the model's tables are association lists: its cost is quadratic in the number of keys)
     let sizes: &[(usize, u64, u64)] =
-        if ctx.tier_thorough { &[(1025, 0, 2), (4097, 0, 2), (5000, 0, 2), (9000, 0, 2), (20_000, 0, 1)] } else { &[(4200, 0, 1)] };
+        if ctx.tier_thorough { &[(1025, 0, 2), (4097, 0, 2), (5000, 0, 2), (9000, 0, 2), (12_000, 0, 1)] } else { &[(4200, 0, 1)] };
     for &(nkeys, lo, hi) in sizes {
         for shape in lo..hi {
             let names = g.names(nkeys);
@@ -1456,5 +1456,5 @@ pub fn run(ctx: &Ctx) {
         emit(&mut out_thr, case);
     }
     out_thr.finish("real threads: 1-4 threads with random scripts (merges/sends, awaited flushes, guards created / mutated / dropped in any order, closes on clones, sleeps) on one MutexSink<Aggregate> resp. one WorkerSink over a random tee tree (interval never / zero / 300 us); the linearisation recorded under the lock resp. on the worker thread is checked for per-thread FIFO and the flush barrier and replayed through the model. Non-trivial = at least two entries produced; distinct by hash of the case");
-    out.finish("sink trees: every operation sequence up to the tier's depth over 4 entries on 3 keys + flush (exhaustive) on a 3-leaf tee, plus random histories (1-600 keys with collisions; and histories with 4200 (thorough: 1025 to 20000) distinct keys held at one flush, flush density 1/3..1/1000, by-ref/owned merges, 5 tree shapes, 2 source types); embedded Aggregate: random insert lists. Non-trivial = at least two merges and one flush (tree) / two inserts (embedded); distinct by hash of the case");
+    out.finish("sink trees: every operation sequence up to the tier's depth over 4 entries on 3 keys + flush (exhaustive) on a 3-leaf tee, plus random histories (1-600 keys with collisions; and histories with 4200 (thorough: 1025 to 12000) distinct keys held at one flush, flush density 1/3..1/1000, by-ref/owned merges, 5 tree shapes, 2 source types); embedded Aggregate: random insert lists. Non-trivial = at least two merges and one flush (tree) / two inserts (embedded); distinct by hash of the case");
 }
